@@ -159,7 +159,23 @@ def real_failures(chk, rounds):
         )
         root = implrun.make_project({"COND": cond})
         argv = ["run", "//:top"] + (["-j", jobs] if jobs else [])
-        res = implrun.run_cond(argv, root, timeout=60)
+
+        def late_copier():
+            # forced schedule: the threads that copy a sequential task's output are scheduled late -- after the task has
+            # already removed its output directory (D33: the copier opened the log file itself, so it failed there and
+            # the error escaped from finish_execution)
+            import time as _t
+            import conductor.utils.tee as _tee
+
+            real = _tee.TeeProcessor._tee_pipe_run  # pylint: disable=protected-access
+
+            def delayed(self, *a, **k):
+                _t.sleep(0.4)
+                return real(self, *a, **k)
+
+            _tee.TeeProcessor._tee_pipe_run = delayed  # pylint: disable=protected-access
+
+        res = implrun.run_cond(argv, root, timeout=60, pre=late_copier if how.startswith("rm -rf") else None)
         chk.coverage["evaluations"] += 1
         text = strip_ansi(res.out + res.err)
         ran = {n: os.path.exists(os.path.join(root, "cond-out", n + ".task", "ran")) for n in ("dep", "ind", "top")}
